@@ -165,13 +165,60 @@ def extend(path: List[Tuple[str, str]]) -> Tuple[Tuple[str, str], ...]:
     return tuple(out)
 
 
-def make_trie(paths) -> dict:
-    root: dict = {}
+class Trie:
+    """prefix tree of conversion paths; every node (= path prefix) has a stable integer id"""
+
+    def __init__(self, paths):
+        self.ids: Dict[tuple, int] = {(): 0}
+        self.prefix: List[tuple] = [()]
+        self.children: List[Dict[Tuple[str, str], int]] = [{}]
+        for p in sorted(set(tuple(x) for x in paths)):
+            self.add(p)
+
+    def add(self, path):
+        node = 0
+        for i, e in enumerate(path):
+            nxt = self.children[node].get(e)
+            if nxt is None:
+                nxt = len(self.prefix)
+                self.ids[tuple(path[: i + 1])] = nxt
+                self.prefix.append(tuple(path[: i + 1]))
+                self.children.append({})
+                self.children[node][e] = nxt
+            node = nxt
+
+    def sub(self, paths) -> Dict[int, List[Tuple[Tuple[str, str], int]]]:
+        """adjacency (node id -> [(edge, child id)]) of the sub-tree spanned by `paths` (ids of the full trie)"""
+        adj: Dict[int, List[Tuple[Tuple[str, str], int]]] = {}
+        seen = set()
+        for p in paths:
+            node = 0
+            for e in p:
+                nxt = self.children[node][e]
+                if nxt not in seen:
+                    seen.add(nxt)
+                    adj.setdefault(node, []).append((e, nxt))
+                node = nxt
+        return adj
+
+    def full(self) -> Dict[int, List[Tuple[Tuple[str, str], int]]]:
+        return {n: list(ch.items()) for n, ch in enumerate(self.children) if ch}
+
+    def leaves(self) -> List[int]:
+        return [n for n, ch in enumerate(self.children) if not ch and n]
+
+
+def segments(paths) -> List[tuple]:
+    """the object-to-object segments (no object state strictly inside) that occur at the START of the exported paths"""
+    out = set()
     for p in paths:
-        node = root
+        seg = []
         for e in p:
-            node = node.setdefault(e, {})
-    return root
+            seg.append(e)
+            if TARGET[e[0]] == "obj" and e[0] not in ("Copy", "MsgCopy"):
+                break
+        out.add(tuple(seg))
+    return sorted(out)
 
 
 class Failure(Exception):
@@ -221,7 +268,7 @@ class Walker:
     def __init__(self, cls, obj, variant: int):
         self.cls, self.obj0, self.b0, self.variant = cls, obj, bytes(obj), variant
         self.msg = is_message(cls)
-        self.status: Dict[tuple, Tuple[str, str]] = {}       # path prefix -> (status, detail)
+        self.status: Dict[int, Tuple[str, str]] = {}         # trie node id (= path prefix) -> (status, detail)
 
     def check_obj(self, o):
         if type(o).__name__ != self.cls.__name__ and getattr(type(o), "type_name", None) != getattr(self.cls, "type_name", None):
@@ -305,33 +352,32 @@ class Walker:
             return "obj", src, None
         raise KeyError(a)
 
-    def walk(self, node: dict, prefix: tuple, rep: str, x: Any, src: Any):
-        for (a, p), child in node.items():
-            key = prefix + ((a, p),)
+    def walk(self, adj: dict, node: int, rep: str, x: Any, src: Any):
+        for (a, p), child in adj.get(node, ()):
             try:
                 r2, x2, s2 = self.apply(a, p, rep, x, src)
                 if r2 == "obj":
                     self.check_obj(x2)
             except Failure as f:
-                st = "ok" if f.status == "ok-not-refused" else f.status
-                self.status[key] = (st, f.detail)
                 if f.status == "ok-not-refused":
+                    self.status[child] = ("ok", f.detail)
                     continue
-                self._skip(child, key)
+                self.status[child] = (f.status, f.detail)
+                self._skip(adj, child)
                 continue
             except (KeyboardInterrupt, SystemExit):
                 raise
             except BaseException as ex:   # noqa: BLE001 -- a conversion that raises is a failed round trip
-                self.status[key] = ("raised", type(ex).__name__)
-                self._skip(child, key)
+                self.status[child] = ("raised", type(ex).__name__)
+                self._skip(adj, child)
                 continue
-            self.status[key] = ("ok", "")
-            self.walk(child, key, r2, x2, s2)
+            self.status[child] = ("ok", "")
+            self.walk(adj, child, r2, x2, s2)
 
-    def _skip(self, node: dict, prefix: tuple):
-        for e, child in node.items():
-            self.status[prefix + (e,)] = ("skipped", "")
-            self._skip(child, prefix + (e,))
+    def _skip(self, adj: dict, node: int):
+        for e, child in adj.get(node, ()):
+            self.status[child] = ("skipped", "")
+            self._skip(adj, child)
 
 
 def first_diff(cls, b0: bytes, b1: bytes) -> str:
@@ -347,18 +393,19 @@ def first_diff(cls, b0: bytes, b1: bytes) -> str:
     return "?"
 
 
-def run_paths(cls, kind: str, tag: str, variant: int, trie: dict) -> Optional[Dict[tuple, Tuple[str, str]]]:
+def run_paths(cls, kind: str, tag: str, variant: int, adj: dict) -> Optional[Dict[int, Tuple[str, str]]]:
+    """node id -> (status, detail) for the sub-trie `adj`, or None if cls has no field of that kind"""
     obj = build_value(cls, kind, tag, variant)
     if obj is None:
         return None
     w = Walker(cls, obj, variant)
-    w.walk(trie, (), "obj", obj, None)
+    w.walk(adj, 0, "obj", obj, None)
     return w.status
 
 
-def default_fails(cls, segment: Tuple[Tuple[str, str], ...], variant: int) -> bool:
-    """does the same segment also fail on a default-constructed object (i.e. independently of the field values)?"""
+def run_default(cls, variant: int, adj: dict) -> Dict[int, Tuple[str, str]]:
+    """the same walk on a default-constructed object (all bytes zero)"""
     obj = cls()
     w = Walker(cls, obj, variant)
-    w.walk(make_trie([segment]), (), "obj", obj, None)
-    return any(st not in ("ok", "skipped") for st, _ in w.status.values())
+    w.walk(adj, 0, "obj", obj, None)
+    return w.status
